@@ -312,6 +312,7 @@ def _expand(P, helper, call, target, counter, at):
         for s_ in out:
             ast.fix_missing_locations(s_)
         return out
+    body = _return_last(body)
     nret = sum(1 for x in _walk_own(body) if isinstance(x, ast.Return))
     if nret <= 1 and body and isinstance(body[-1], ast.Return) or nret == 0:
         last = body[-1] if body and isinstance(body[-1], ast.Return) else None
@@ -338,6 +339,22 @@ def _expand(P, helper, call, target, counter, at):
     for s in out:
         ast.fix_missing_locations(s)
     return out
+
+
+def _return_last(body):
+    """`PRE; if t: B..; return X` followed by a tail that only raises is `PRE; if not t: TAIL` followed by `B..; return X`: the shape
+    with the single return at the end (the canonical form may have made the shorter leaving branch the guard)"""
+    for i, s in enumerate(body):
+        if isinstance(s, ast.If) and not s.orelse and s.body and isinstance(s.body[-1], ast.Return) and i + 1 < len(body):
+            tail = body[i + 1:]
+            if not any(isinstance(x, ast.Return) for x in _walk_own(tail)) and isinstance(tail[-1], ast.Raise) \
+                    and not any(isinstance(x, ast.Return) for x in _walk_own(body[:i])) \
+                    and sum(1 for x in _walk_own(s.body) if isinstance(x, ast.Return)) == 1:
+                t = s.test
+                neg = t.operand if isinstance(t, ast.UnaryOp) and isinstance(t.op, ast.Not) else ast.copy_location(ast.UnaryOp(op=ast.Not(), operand=t), t)
+                return body[:i] + [ast.copy_location(ast.If(test=neg, body=tail, orelse=[]), s)] + _return_last(s.body)
+            break
+    return body
 
 
 def _simplify_block(nb):
@@ -703,6 +720,63 @@ def inline_new_constants(P):
                 _ConstSubst(mm).visit(fn)
                 _FoldInts().visit(fn)
                 n += 1
+    n += _inline_new_class_constants(P, base)
+    return n
+
+
+class _AttrConstSubst(ast.NodeTransformer):
+    def __init__(self, recv, m):
+        self.recv, self.m = recv, m
+
+    def visit_Attribute(self, n):
+        self.generic_visit(n)
+        if isinstance(n.ctx, ast.Load) and isinstance(n.value, ast.Name) and n.value.id in self.recv and n.attr in self.m:
+            return ast.copy_location(copy.deepcopy(self.m[n.attr]), n)
+        return n
+
+
+def _inline_new_class_constants(P, base):
+    """the same for class-level names (`class C: _LEN = 32`) that are not part of the reference tree: `self._LEN` / `cls._LEN` /
+    `C._LEN` inside the methods of C read as the value, unless the class (or a method) stores that attribute elsewhere"""
+    n = 0
+    for (m, c), cls in P.classes.items():
+        cands, stores = {}, {}
+        for s in cls.body:
+            tgt = None
+            if isinstance(s, ast.Assign) and len(s.targets) == 1 and isinstance(s.targets[0], ast.Name):
+                tgt, val = s.targets[0].id, s.value
+            elif isinstance(s, ast.AnnAssign) and isinstance(s.target, ast.Name) and s.value is not None and 'ClassVar' in ast.unparse(s.annotation):
+                tgt, val = s.target.id, s.value
+            if tgt:
+                stores[tgt] = stores.get(tgt, 0) + 1
+                if f'{m}.{c}.{tgt}' not in base and _literalish(val) and tgt.upper() == tgt:
+                    cands[tgt] = val
+        cands = {k: v for k, v in cands.items() if stores.get(k) == 1}
+        if not cands:
+            continue
+        # stored as an attribute anywhere in the module (instance shadowing, later rebinding): leave alone
+        tree = P.mods[m][1]
+        shadow = {x.attr for x in ast.walk(tree) if isinstance(x, ast.Attribute) and isinstance(x.ctx, (ast.Store, ast.Del))}
+        cands = {k: v for k, v in cands.items() if k not in shadow}
+        # a subclass that rebinds the name changes what `self.X` means
+        for (m2, c2), cls2 in P.classes.items():
+            if (m2, c2) != (m, c) and (m, c) in P.mro(m2, c2):
+                for s in cls2.body:
+                    for t in (s.targets if isinstance(s, ast.Assign) else [s.target] if isinstance(s, ast.AnnAssign) else []):
+                        if isinstance(t, ast.Name):
+                            cands.pop(t.id, None)
+        if not cands:
+            continue
+        done = {}
+        for k, v in cands.items():
+            done[k] = _FoldInts().visit(_ConstSubst(done).visit(copy.deepcopy(v)))
+        for fn in [x for x in cls.body if isinstance(x, FuncT)]:
+            first = fn.args.args[0].arg if fn.args.args else None
+            recv = {c} | ({first} if first in ('self', 'cls') else set())
+            if any(isinstance(x, ast.Attribute) and isinstance(x.value, ast.Name) and x.value.id in recv and x.attr in done for x in ast.walk(fn)):
+                _AttrConstSubst(recv, done).visit(fn)
+                _FoldInts().visit(fn)
+                n += 1
     return n
 
 
@@ -799,6 +873,33 @@ def normalise_calls(P):
                 if len(state['expanded']) > n0:
                     from .canon import canonicalise_function
                     canonicalise_function(f.node, generated=True)
+            # a new helper every use of which was expanded no longer exists as a unit of the program the rules see: its statements are
+            # judged where they now stand (in the callers), not a second time out of context
+            used = {t for (_, t) in state['expanded']}
+            absorbed = {}
+            newnodes = {id(P.funcs[q].node) for q in used if q in P.funcs}
+
+            def refs(tree, name):
+                # references to `name` anywhere except inside the expanded helpers themselves (the trees already hold the expansions)
+                st = [tree]
+                while st:
+                    x = st.pop()
+                    if id(x) in newnodes:
+                        continue
+                    if (isinstance(x, ast.Name) and x.id == name) or (isinstance(x, ast.Attribute) and x.attr == name):
+                        return True
+                    st.extend(ast.iter_child_nodes(x))
+                return False
+            for t in sorted(used):
+                if t not in P.funcs:
+                    continue
+                name = t.split('.')[-1].strip('<>')
+                if not any(refs(tree, name) for (_, tree, _) in P.mods.values()):
+                    absorbed[t] = P.funcs[t]
+            for t in absorbed:
+                del P.funcs[t]
+            P.absorbed_funcs = absorbed
+            stats['absorbed'] = sorted(absorbed)
     return stats
 
 
